@@ -126,8 +126,18 @@ def push(v, area=None):
     return (0, 1, v, area)
 
 
+def push_seq(v):
+    """commands leaving `v` on the current stack (a work stack > 2) without very long dot runs"""
+    if v <= 600: return [push(v)]
+    for h in range(600, 1, -1):
+        if v % h == 0 and v // h <= 600: return [(0, h, v // h, None)]
+    for a in range(600, 1, -1):
+        if v % a == 0: return push_seq(v // a) + [push(a), (2, 2, 3, None)]
+    return push_seq(v - 1) + [push(1), (1, 2, 3, None)]
+
+
 def print_char(code, to=1):
-    return [push(code), (1, 1, to, None)]
+    return push_seq(code) + [(1, 1, to, None)]
 
 
 def idiom_print(rng):
@@ -202,7 +212,17 @@ def idiom_backjump_stack(rng):
             (0, 2, 1, (0, None, (0, None, (0, leaf(h), None))))]
 
 
-IDIOMS = [idiom_backjump_stack, idiom_print, idiom_loop, idiom_read, idiom_fraction, idiom_exit, idiom_multi, idiom_label_return, idiom_stacks]
+def idiom_input_loop(rng):
+    """label, then peek an input character with the switch command on stack 0, print it, loop back to the
+    label while the character is at least `th` (label placed BEFORE the first command that needs input)"""
+    h = rng.choice([2, 4, 6]); th = rng.choice([33, 34, 40, 65])
+    L = leaf(h)
+    tail = (0, None, (0, None, (0, L, (0, L, (0, L, (0, L, L))))))
+    return [(5, 1, 0, L), (5, 1, 0, None), (5, 2, 3, None), (1, 1, 1, None), push(th), (3, 1, 4, None), (1, 2, 3, None),
+            (5, 1, 0, None), (0, 1, 0, tail)]
+
+
+IDIOMS = [idiom_backjump_stack, idiom_input_loop, idiom_print, idiom_loop, idiom_read, idiom_fraction, idiom_exit, idiom_multi, idiom_label_return, idiom_stacks]
 
 
 def rand_cmd(rng, hearts, grammar=True):
@@ -232,6 +252,7 @@ def rand_prog(rng, grammar=True, maxlen=14):
 
 def rand_stdin(rng):
     r = rng.random()
+    if r < 0.12: return "#__a_b_c_!!!!\n"
     if r < 0.25: return ""
     if r < 0.4: return "A"
     if r < 0.55: return "AB\n"
